@@ -321,6 +321,8 @@ def build_trace(tid: str, run: dict, base: dict, spec: dict, kindof: Dict[str, s
         o: Dict[str, Any] = {"ev": ev, "f": f, "src": src, "seq": e["seq"]}
         if ev in ("take", "finish"):
             o["w"] = workers.setdefault((e["pid"], e["tid"]), len(workers) + 1)
+        elif ev == "rskip":
+            o["w"] = workers.get((e["pid"], e["tid"]), 0)     # 0: not a pool thread (main thread or the pool's feeder)
         elif ev == "add":
             o["rec"] = rec_of(e["rec"])
             o["dir"] = args_idx.get(e["dir"], 0)
